@@ -35,7 +35,7 @@ func loadAll(repo, verif string) *Prog {
 		os.Exit(3)
 	}
 	p.QueryTimeoutMs = 4000
-	p.UnitTimeout = 90 * time.Second
+	p.UnitTimeout = 180 * time.Second
 	if err := p.LoadSpecs(verif); err != nil {
 		fmt.Fprintln(os.Stderr, "specs:", err)
 		os.Exit(3)
